@@ -39,6 +39,11 @@ def rand_state(rng):
 
 def to_dev_state(s):
     d = {k: v for k, v in s.items() if k != "aux"}
+    import hashlib as _h
+    hv = _h.sha256(repr(sorted(s.items())).encode()).digest()
+    if hv[0] % 3 == 0:
+        # functions this client does not model are active on the unit (set from the remote control)
+        d["spare"] = {"8": hv[1] & 0x1B, "9": hv[2] & 0xC7}
     d["aux_heat"] = s["aux"] == 1
     d["indep_aux"] = s["aux"] == 2
     return d
